@@ -36,7 +36,7 @@ OP_SPELL = {"=": ["=", "==", "eq"], "!=": ["!=", "<>", "ne"], "<": ["<", "lt"], 
 
 
 def examples(tier):
-    return 420 if tier == "quick" else 6000
+    return 2800 if tier == "quick" else 28000
 
 
 @st.composite
